@@ -44,12 +44,9 @@ fn stub_mutex_lock<T: ?Sized>(m: &std::sync::Mutex<T>) -> std::sync::LockResult<
 /// Stub for `std::io::Error::new` where the identity of the wrapped error is irrelevant (C19 FIFO,
 /// C16 schedules): keeps the io::ErrorKind, drops the boxed payload. The bit-packed repr of a
 /// boxed custom error (pointer tagging) multiplies the size of the query by 4 per call site.
-fn stub_io_error_new<E>(kind: io::ErrorKind, error: E) -> io::Error
-where
-    E: Into<Box<dyn std::error::Error + Send + Sync>>,
-{
-    core::mem::forget(error);
-    io::Error::from(kind)
+fn stub_io_from_qerr(e: Error) -> io::Error {
+    core::mem::forget(e);
+    io::Error::from(io::ErrorKind::BrokenPipe)
 }
 
 /// A datagram = SEQ[a..b]; identified by address and length (no byte copies needed).
@@ -109,73 +106,129 @@ fn c19_recv_limit() {
     core::mem::forget(incoming);
 }
 
-/// C19: accepted datagrams are delivered unchanged, unmerged, in arrival order.
-/// Datagram i is SEQ[20*i .. 20*i + len_i] (distinct addresses, symbolic lengths incl. 0).
-fn recv_fifo<const N: usize>() {
-    let incoming = DatagramIncoming::new(100);
-    let lens: [usize; N] = kani::any();
-    let n: usize = kani::any();
-    kani::assume(n <= N);
+/// Pre-state built directly (private fields): a live reader whose queue holds the `n` datagrams
+/// SEQ[20*i .. 20*i + lens[i]], i < n (distinct addresses, symbolic lengths incl. 0), n <= 3.
+/// This is exactly the set of states `recv_datagram` can produce from `DatagramIncoming::new`
+/// (push_back of accepted slices), with `n` bounded by the model capacity.
+fn fifo_prestate(local_max: usize, n: usize, lens: &[usize; 3], w: Option<Waker>) -> DatagramIncoming {
+    let mut q: VecDeque<Bytes> = VecDeque::new();
     let mut i = 0;
-    while i < N {
-        kani::assume(lens[i] <= 10);
+    while i < 3 {
         if i < n {
-            let r = incoming.recv_datagram(DatagramFrame::new(kani::any(), VarInt::from_u32(lens[i] as u32)), dgram(20 * i, 20 * i + lens[i]));
-            assert!(r.is_ok());
-            core::mem::forget(r);
+            q.push_back(dgram(20 * i, 20 * i + lens[i]));
         }
         i += 1;
     }
-    assert!(queue_len(&incoming) == n);
+    DatagramIncoming(Arc::new(Mutex::new(Ok(RawDatagarmReader {
+        local_max_size: local_max,
+        rcvd_datagrams: q,
+        read_waker: w,
+    }))))
+}
+
+/// i-th queued element is SEQ[a..b] (by address and length).
+fn queued_is(incoming: &DatagramIncoming, i: usize, a: usize, b: usize) -> bool {
+    match incoming.0.lock().unwrap().as_ref() {
+        Ok(r) => match r.rcvd_datagrams.get(i) {
+            Some(x) => is_dgram(x, a, b),
+            None => false,
+        },
+        Err(_) => false,
+    }
+}
+
+/// C19 (FIFO, inductive step 1): an accepted datagram is appended behind the N already queued
+/// ones, which stay untouched (unchanged, unmerged, arrival order kept).
+fn fifo_push<const N: usize>() {
+    let lens: [usize; 3] = kani::any();
+    kani::assume(lens[0] <= 10 && lens[1] <= 10 && lens[2] <= 10);
+    let incoming = fifo_prestate(100, N, &lens, None);
+    let len: usize = kani::any();
+    kani::assume(len <= 10);
+    let r = incoming.recv_datagram(DatagramFrame::new(kani::any(), VarInt::from_u32(len as u32)), dgram(60, 60 + len));
+    assert!(r.is_ok());
+    core::mem::forget(r);
+    assert!(queue_len(&incoming) == N + 1, "exactly one more datagram queued");
+    assert!(queued_is(&incoming, N, 60, 60 + len), "the new datagram is the last one, whole");
+    let mut j = 0;
+    while j < N {
+        assert!(queued_is(&incoming, j, 20 * j, 20 * j + lens[j]), "earlier datagrams keep their place and content");
+        j += 1;
+    }
+    kani::cover!(len == 0 && lens[1] == 0, "empty datagrams");
+    kani::cover!(len == 10, "non-empty datagram");
+    core::mem::forget(incoming);
+}
+
+#[kani::proof]
+#[kani::unwind(6)]
+#[kani::stub(alloc::fmt::format, stub_fmt)]
+#[kani::stub(core::slice::index::slice_index_fail, stub_slice_index_fail)]
+#[kani::stub(std::sync::Mutex::lock, stub_mutex_lock)]
+#[kani::stub(tracing::callsite::DefaultCallsite::interest, stub_interest)]
+#[kani::stub(tracing::__macro_support::__is_enabled, stub_is_enabled)]
+#[kani::stub(tracing::Event::dispatch, stub_dispatch)]
+fn c19_recv_fifo_push_n0() {
+    fifo_push::<0>();
+}
+
+#[kani::proof]
+#[kani::unwind(6)]
+#[kani::stub(alloc::fmt::format, stub_fmt)]
+#[kani::stub(core::slice::index::slice_index_fail, stub_slice_index_fail)]
+#[kani::stub(std::sync::Mutex::lock, stub_mutex_lock)]
+#[kani::stub(tracing::callsite::DefaultCallsite::interest, stub_interest)]
+#[kani::stub(tracing::__macro_support::__is_enabled, stub_is_enabled)]
+#[kani::stub(tracing::Event::dispatch, stub_dispatch)]
+fn c19_recv_fifo_push_n2() {
+    fifo_push::<2>();
+}
+
+/// C19 (FIFO, inductive step 2): poll_recv returns the OLDEST queued datagram unchanged and leaves
+/// the others in order; on an empty queue it is Pending and registers the reader.
+#[kani::proof]
+#[kani::unwind(6)]
+#[kani::stub(alloc::fmt::format, stub_fmt)]
+#[kani::stub(core::slice::index::slice_index_fail, stub_slice_index_fail)]
+#[kani::stub(std::sync::Mutex::lock, stub_mutex_lock)]
+#[kani::stub(tracing::callsite::DefaultCallsite::interest, stub_interest)]
+#[kani::stub(tracing::__macro_support::__is_enabled, stub_is_enabled)]
+#[kani::stub(tracing::Event::dispatch, stub_dispatch)]
+#[kani::stub(<std::io::Error as core::convert::From<qbase::error::Error>>::from, stub_io_from_qerr)]
+fn c19_recv_fifo_pop() {
+    let lens: [usize; 3] = kani::any();
+    let n: usize = kani::any();
+    kani::assume(n <= 3);
+    kani::assume(lens[0] <= 10 && lens[1] <= 10 && lens[2] <= 10);
+    let incoming = fifo_prestate(100, n, &lens, None);
     let reader = DatagramReader(incoming.0.clone());
     let w = waker(0);
     let mut cx = Context::from_waker(&w);
-    let mut i = 0;
-    while i < N {
-        if i < n {
-            match reader.poll_recv(&mut cx) {
-                Poll::Ready(Ok(x)) => {
-                    assert!(is_dgram(&x, 20 * i, 20 * i + lens[i]), "i-th datagram delivered unchanged and unmerged, in order");
-                    core::mem::forget(x);
-                }
-                _ => assert!(false, "a queued datagram is readable"),
-            }
-        }
-        i += 1;
-    }
     let r = reader.poll_recv(&mut cx);
-    assert!(r.is_pending(), "nothing more than what was received");
-    core::mem::forget(r);
-    kani::cover!(n == N && lens[0] > 0 && lens[N - 1] == 0, "N datagrams, the last one empty");
+    match &r {
+        Poll::Ready(Ok(x)) => {
+            assert!(n > 0);
+            assert!(is_dgram(x, 0, lens[0]), "the oldest datagram is delivered, unchanged and unmerged");
+            assert!(queue_len(&incoming) == n - 1);
+            let j: usize = kani::any();
+            kani::assume(j < 2 && j + 1 < n);
+            assert!(queued_is(&incoming, j, 20 * (j + 1), 20 * (j + 1) + lens[j + 1]), "the rest keeps its order");
+        }
+        Poll::Pending => {
+            assert!(n == 0, "Pending only on an empty queue");
+            let registered = match incoming.0.lock().unwrap().as_ref() {
+                Ok(r) => r.read_waker.is_some(),
+                Err(_) => false,
+            };
+            assert!(registered, "the sleeping reader is registered");
+        }
+        Poll::Ready(Err(_)) => assert!(false, "no error on a live connection"),
+    }
+    kani::cover!(n == 3 && lens[0] == 0 && lens[1] > 0, "three queued, first empty");
     kani::cover!(n == 0, "nothing received");
+    core::mem::forget(r);
     core::mem::forget(incoming);
     core::mem::forget(reader);
-}
-
-#[kani::proof]
-#[kani::unwind(6)]
-#[kani::stub(alloc::fmt::format, stub_fmt)]
-#[kani::stub(core::slice::index::slice_index_fail, stub_slice_index_fail)]
-#[kani::stub(std::sync::Mutex::lock, stub_mutex_lock)]
-#[kani::stub(tracing::callsite::DefaultCallsite::interest, stub_interest)]
-#[kani::stub(tracing::__macro_support::__is_enabled, stub_is_enabled)]
-#[kani::stub(tracing::Event::dispatch, stub_dispatch)]
-#[kani::stub(std::io::Error::new, stub_io_error_new)]
-fn c19_recv_fifo_n2() {
-    recv_fifo::<2>();
-}
-
-#[kani::proof]
-#[kani::unwind(6)]
-#[kani::stub(alloc::fmt::format, stub_fmt)]
-#[kani::stub(core::slice::index::slice_index_fail, stub_slice_index_fail)]
-#[kani::stub(std::sync::Mutex::lock, stub_mutex_lock)]
-#[kani::stub(tracing::callsite::DefaultCallsite::interest, stub_interest)]
-#[kani::stub(tracing::__macro_support::__is_enabled, stub_is_enabled)]
-#[kani::stub(tracing::Event::dispatch, stub_dispatch)]
-#[kani::stub(std::io::Error::new, stub_io_error_new)]
-fn c19_recv_fifo_n3() {
-    recv_fifo::<3>();
 }
 
 /// C16: every schedule of K atomic steps of poll_recv (waiter) / recv_datagram / on_conn_error
@@ -254,7 +307,7 @@ fn conn_error(kind: ErrorKind) -> Error {
 #[kani::stub(tracing::callsite::DefaultCallsite::interest, stub_interest)]
 #[kani::stub(tracing::__macro_support::__is_enabled, stub_is_enabled)]
 #[kani::stub(tracing::Event::dispatch, stub_dispatch)]
-#[kani::stub(std::io::Error::new, stub_io_error_new)]
+#[kani::stub(<std::io::Error as core::convert::From<qbase::error::Error>>::from, stub_io_from_qerr)]
 fn c16_datagram_reader_schedule_k3() {
     reader_schedule::<3>();
 }
@@ -267,7 +320,7 @@ fn c16_datagram_reader_schedule_k3() {
 #[kani::stub(tracing::callsite::DefaultCallsite::interest, stub_interest)]
 #[kani::stub(tracing::__macro_support::__is_enabled, stub_is_enabled)]
 #[kani::stub(tracing::Event::dispatch, stub_dispatch)]
-#[kani::stub(std::io::Error::new, stub_io_error_new)]
+#[kani::stub(<std::io::Error as core::convert::From<qbase::error::Error>>::from, stub_io_from_qerr)]
 fn c16_datagram_reader_schedule_k4() {
     reader_schedule::<4>();
 }
